@@ -139,7 +139,10 @@ def get_next_imf(X, env_step_size=1, max_iters=1000, energy_thresh=None,
 
         # If upper or lower are None we should stop sifting altogether
         if upper is None or lower is None:
-            continue_flag = False
+            # Only an input which itself has too few extrema is a final
+            # residual. A partly sifted proto-imf which loses its extrema is
+            # returned as an IMF and the sift continues on what remains.
+            continue_flag = niters > 1
             continue_imf = False
             logger.debug('Finishing sift: IMF has no extrema')
             continue
